@@ -645,6 +645,50 @@ async fn exec(cx: &mut Cx<'_>, st: &Step) {
         }
         Step::Panic(t) => panic!("injected:{t}"),
         Step::Send { kind, slot, msg } => exec_send(cx, *kind, *slot, msg).await,
+        Step::SendThen { kind, slot, msg, other, drop_first } => {
+            // only the typed / erased tell and ask of M1 messages, the forms the erased handlers offer
+            let (op, raw, fut): (u32, Option<u64>, Option<std::pin::Pin<Box<dyn Future<Output = Res> + Send>>>) = {
+                let got = resolve(cx, *slot);
+                let h: &H = match &got {
+                    Got::Local(h) => h,
+                    Got::Temp(h) => h,
+                    _ => &H::None,
+                };
+                let (op, raw) = op_start(OpK::Send(*kind), h.identity(), Some(msg.id), *slot, h.kind());
+                let m = Msg { spec: msg.clone(), carried: None };
+                let fut: Option<std::pin::Pin<Box<dyn Future<Output = Res> + Send>>> = match (h, kind) {
+                    (H::Strong(r), SendKind::Tell) => {
+                        let r = r.clone();
+                        Some(Box::pin(async move { unit(r.tell(m).await, raw) }))
+                    }
+                    (H::Strong(r), SendKind::Ask) => {
+                        let r = r.clone();
+                        Some(Box::pin(async move { rep(r.ask(m).await, raw) }))
+                    }
+                    (H::Tell(t), SendKind::Tell) => {
+                        let t = t.clone();
+                        // the erased call itself happens here, its future is awaited (or dropped) later
+                        let f = unsafe_extend(t, m);
+                        Some(Box::pin(async move { unit(f.await, raw) }))
+                    }
+                    _ => None,
+                };
+                (op, raw, fut)
+            };
+            let _ = raw;
+            Box::pin(exec(cx, other)).await;
+            match fut {
+                Some(f) if !*drop_first => {
+                    let res = f.await;
+                    op_end(op, res);
+                }
+                Some(f) => {
+                    drop(f);
+                    op_end(op, Res::Unit);
+                }
+                None => op_end(op, Res::NoHandle),
+            }
+        }
         Step::Stop(slot) => {
             let got = resolve(cx, *slot);
             let tmp;
@@ -1102,6 +1146,27 @@ async fn exec_send(cx: &mut Cx<'_>, kind: SendKind, slot: u8, spec: &MsgSpec) {
         _ => Res::NoHandle,
     };
     op_end(op, res);
+}
+
+/// Calls `TellHandler::tell` now and returns its future together with the handler it borrows from.
+fn unsafe_extend(t: Box<dyn TellHandler<Msg>>, m: Msg) -> impl Future<Output = rsactor::Result<()>> + Send {
+    struct Owned {
+        // field order matters: the future borrows from the box and must be dropped first
+        fut: Option<std::pin::Pin<Box<dyn Future<Output = rsactor::Result<()>> + Send>>>,
+        _h: Box<dyn TellHandler<Msg>>,
+    }
+    impl Future for Owned {
+        type Output = rsactor::Result<()>;
+        fn poll(mut self: std::pin::Pin<&mut Self>, cx: &mut Context<'_>) -> Poll<Self::Output> {
+            self.fut.as_mut().unwrap().as_mut().poll(cx)
+        }
+    }
+    let mut o = Owned { fut: None, _h: t };
+    // SAFETY: the boxed handler lives on the heap and is owned by `o` for as long as the future exists;
+    // moving `o` does not move the heap allocation the future refers to.
+    let href: &'static dyn TellHandler<Msg> = unsafe { &*(o._h.as_ref() as *const dyn TellHandler<Msg>) };
+    o.fut = Some(href.tell(m));
+    o
 }
 
 fn unit(r: rsactor::Result<()>, raw: Option<u64>) -> Res {
